@@ -276,8 +276,7 @@ PROPS["C16"] = dict(
              "text machine, which is not part of this branch; meanwhile the three-way agreement is carried by the correspondence run: the "
              "executable specification compares the three REAL outcomes on every generated pair, and the driver's third model field echoes "
              "the implementation (no text-side model yet, so that field cannot disagree)",
-             "Schema / TVal have Bool-valued structural equality (beq / eqv) and wire codecs; a DecidableEq instance (needs beq lawfulness "
-             "over the nested inductives) is not provided"],
+             "the wire codecs of Schema / TVal have no round-trip lemma (decode (enc x) = x); they are exercised on every case line"],
     technique="Lean 4 theorem by mutual structural induction over a nested typed universe: the two transcriptions of src/value/de.rs (owned "
               "Deserializer for Value, borrowed Deserializer for &Value, each with its seq/map/enum/variant access types, sharing Number's "
               "impl and MapKeyDeserializer as the crate does) are equal on every schema and value; structural corollaries; differential run "
@@ -287,7 +286,9 @@ PROPS["C16"] = dict(
                "string/integer/bool/char/unit-enum keys, struct with or without deny_unknown_fields given as object or array, externally "
                "tagged enum with unit/newtype/tuple/struct variants, IgnoredAny, Value) and every Value, the transcription of from_value "
                "and the transcription of Deserialize-from-&Value return the same outcome; plus c16_ignored_total, c16_any_identity, "
-               "c16_tuple_exact_length, c16_struct_array_exact_length, c16_int_in_range, c16_enum_single_key, c16_option. Both "
+               "c16_tuple_exact_length, c16_struct_array_exact_length, c16_int_in_range, c16_enum_single_key, c16_option, "
+               "c16_result_comparator_exact (the comparator of the executable statement is equality), c16_routing_tied (source routing "
+               "= transcribed routing, regenerated each run). Both "
                "transcriptions are run against the real crate on every generated (schema, value) pair (0 disagreements in four feature "
                "configurations) and the three-way statement (owned, borrowed, from_str of to_string) is evaluated on the crate's own "
                "outcomes with exactly the statement's exclusions.",
